@@ -265,7 +265,8 @@ class CoordinateComponent(Component):
             # If the view is a tuple or list of arrays, we should actually just
             # convert these straight to world coordinates since the indices
             # of the pixel coordinates are the pixel coordinates themselves.
-            if isinstance(view, (tuple, list)) and isinstance(view[0], np.ndarray):
+            if (isinstance(view, (tuple, list)) and len(view) == self._data.ndim and
+                    all(isinstance(v, np.ndarray) for v in view)):
                 axis = self._data.ndim - 1 - self.axis
                 return pixel2world_single_axis(self._data.coords, *view[::-1],
                                                world_axis=axis)
